@@ -1277,8 +1277,14 @@ br_ssl_engine_renegotiate(br_ssl_engine_context *cc)
 
 	if (br_ssl_engine_closed(cc) || cc->reneg == 1
 		|| (cc->flags & BR_OPT_NO_RENEGOTIATION) != 0
-		|| br_ssl_engine_recvapp_buf(cc, &len) != NULL)
+		|| br_ssl_engine_recvapp_buf(cc, &len) != NULL
+		|| cc->iomode == BR_IO_IN)
 	{
+		/*
+		 * BR_IO_IN: the shared buffer currently holds (part of)
+		 * an incoming record, so no handshake message can be
+		 * produced now; the caller may try again later.
+		 */
 		return 0;
 	}
 
